@@ -19,7 +19,7 @@ type c02Case struct {
 	Stored Call    `json:"stored"`
 	Recv   Call    `json:"received"`
 	Mode   Mode    `json:"mode"`          // mode of the second process
-	UpdOpt *bool   `json:"update_option"` // nil or false (never true: that enables updating)
+	UpdOpt *bool   `json:"update_option"` // nil or false; true only together with CI (on CI nothing is written whatever the option says)
 	Color  bool    `json:"color"`
 	// texts as the harness computed them (informational for snap/ssnap/yaml; empty for json)
 	A BS `json:"formatted_stored,omitempty"`
@@ -38,7 +38,12 @@ func genReadOnlyMode(t *rapid.T) (Mode, *bool) {
 	case 1:
 		return Mode{}, boolp(false)
 	case 2:
-		return Mode{CI: true, Update: rapid.SampledFrom([]string{"", "true", "clean"}).Draw(t, "ciupd")}, nil
+		// on CI nothing is ever written - whatever UPDATE_SNAPS and the Update option say
+		var opt *bool
+		if rapid.IntRange(0, 2).Draw(t, "cioption") == 0 {
+			opt = boolp(rapid.Bool().Draw(t, "cioptionvalue"))
+		}
+		return Mode{CI: true, Update: rapid.SampledFrom([]string{"", "true", "clean"}).Draw(t, "ciupd")}, opt
 	case 3:
 		return Mode{Update: "clean"}, nil
 	case 4:
